@@ -48,7 +48,8 @@ T.append(tree('D3 commands', cmd('app', 'root', extra=[grp('Application Options'
     cmd('rm', 'exec', extra=[grp('Rm', [opt('f', 'force')])])])))
 # D4 positionals on the parser
 T.append(tree('D4 positional', cmd('app', 'root', extra=[grp('Application Options', [opt('o', 'out', 'scalar', 'string')])],
-    args=[{'name': 'src', 'vtype': 'string'}, {'name': 'n', 'vtype': 'int'}, {'name': 'rest', 'vtype': 'string', 'slice': True}])))
+    args=[{'name': 'src', 'vtype': 'string'}, {'name': 'n', 'vtype': 'int'}, {'name': 'rest', 'vtype': 'string', 'slice': True}],
+    argSplit=1)))      # declared in two positional-args structs: (src) and (n, rest)
 # D5 optional sub-commands, positional on a command, hidden sibling
 T.append(tree('D5 optional subcommands', cmd('app', 'root', extra=[grp('Application Options', [opt('q', 'quiet')])], cmds=[
     cmd('run', 'exec', subOpt=True, extra=[grp('Run', [opt('k', 'keep')])], args=[{'name': 'file', 'vtype': 'string', 'reqTag': 'yes'}], cmds=[
